@@ -16,6 +16,10 @@ def start(ctx, period=1.0):
     if ctx.nworkers <= 1:
         return stop
     pool = ctx.pool()
+    if not hasattr(pool, '_pool'):
+        # the framework pool is now a concurrent.futures.ProcessPoolExecutor: a dead worker raises BrokenProcessPool in
+        # ctx.map, which core.py turns into a HarnessError (exit 2) -- nothing to watch
+        return stop
     pids0 = {p.pid for p in list(pool._pool)}
 
     def loop():
@@ -38,3 +42,20 @@ def start(ctx, period=1.0):
 
     threading.Thread(target=loop, name='poolwatch', daemon=True).start()
     return stop
+
+
+def numba_ready():
+    """Launch numba's threading layer in this process before any compiled TidalPy table function is called.
+
+    Reproducible numba (0.67) defect met while building C09: process A calls a `parallel=True` table function on an
+    array (compiled, cached); process B calls a `cacheable=True` *caller* of it (the mode_calc_helper lookups: callee
+    loaded from the cache, caller compiled and cached); a fresh process C that calls the cached caller as its first
+    numba call jumps through a NULL `numba_parallel_for` pointer (`segfault at 0 ip 0`), because loading the cached
+    caller does not run the callee's reload hook that launches the threading layer.  Launching it explicitly makes the
+    compiled paths usable from any worker in any order; it does not change any computed value.
+    """
+    try:
+        from numba.np.ufunc.parallel import _launch_threads
+        _launch_threads()
+    except Exception:       # numba disabled / API moved: nothing to prepare
+        pass
